@@ -146,7 +146,8 @@ def get_session(ctx):
 
 REFINE_MODULES = {"C01": ["C01Refine", "C01RefinePy", "C01RefineCpp"], "C02": ["C01Refine", "C01RefinePy", "C01RefineCpp"],
                   "C03": ["C01RefineCpp"]}
-REFINE_EXES = {"C01": ["genc", "genpy", "gencpp"], "C02": ["genc", "genpy", "gencpp"], "C03": ["gencpp"]}
+REFINE_EXES = {"C01": ["genc", "genpy", "gencpp"], "C02": ["genc", "genpy", "gencpp"], "C03": ["gencpp"], "C05": ["cliteral"]}
+REFINE_MODULES["C05"] = ["C05Lit"]
 _DRIVERS = {}
 
 
